@@ -211,6 +211,103 @@ theorem takeAux_ping : ∀ (fuel : Nat) (s : Irc), PingOut s (takeAux fuel s)
 
 theorem takeMsg_ping (s : Irc) : PingOut s (takeMsg s) := takeAux_ping _ s
 
+/-! ### a ping time-out throws nothing away -/
+
+def discs (evs : List Ev) : List (List Msg) :=
+  evs.filterMap fun
+    | .discarded ms => some ms
+    | _ => none
+
+theorem discs_append (a b : List Ev) : discs (a ++ b) = discs a ++ discs b := filterMap_append
+
+theorem discs_cons (e : Ev) (l : List Ev) : discs (e :: l) = discs [e] ++ discs l := discs_append [e] l
+
+theorem sendConnect_discs : ∀ (cs : List Content) (s : Irc), discs (sendConnect s cs).2 = []
+  | [], _ => rfl
+  | c :: cs, s => by
+    unfold sendConnect
+    dsimp only
+    rw [discs_append, sendConnect_discs cs]
+    unfold sendMsg
+    split <;> rfl
+
+theorem queueConnectMessages_discs (s : Irc) : discs (queueConnectMessages s).2 = [] := by
+  unfold queueConnectMessages
+  split
+  · rfl
+  · exact sendConnect_discs _ _
+
+theorem noMsg_discs (s : Irc) : discs (noMsg s).2 = [] := by
+  unfold noMsg; split <;> rfl
+
+theorem queueMsg_discs (s : Irc) (m : Msg) : discs (queueMsg s m).2 = [] := by
+  unfold queueMsg
+  split
+  · split <;> rfl
+  · rfl
+
+theorem pingBranch_discs (s : Irc) (hf : s.fast = []) (hq : s.queue.isEmpty = true) :
+    ∀ ms ∈ discs (pingBranch s).2, ms = [] := by
+  unfold pingBranch
+  split
+  · split
+    · dsimp only
+      intro ms hm
+      have hr : discs (reset s).2 = [s.pending] := by
+        unfold reset; dsimp only
+        rw [discs_cons, queueConnectMessages_discs]; rfl
+      rw [discs_cons, hr] at hm
+      simp only [discs, filterMap_cons, filterMap_nil, nil_append, mem_singleton] at hm
+      rw [hm]; exact pending_nil s hf hq
+    · split
+      · intro ms hm; rw [queueMsg_discs] at hm; cases hm
+      · intro ms hm; cases hm
+  · intro ms hm; cases hm
+
+/-- **A ping time-out throws nothing away**: whatever `takeMsg` discards (it does so only by
+reconnecting for an unanswered PING) is the empty backlog — the ping branch is reached only with
+both queues empty, so no message accepted by `queueMsg`/`sendMsg` is lost to a time-out while it
+waits, throttled or rate-limited. -/
+theorem takeAux_discards_nothing : ∀ (fuel : Nat) (s : Irc), ∀ ms ∈ discs (takeAux fuel s).2, ms = []
+  | 0, _ => by intro ms hm; cases hm
+  | fuel + 1, s => by
+    unfold takeAux takeBody
+    split
+    · rename_i m rest hf
+      split
+      · intro ms hm; cases hm
+      · intro ms hm; cases hm
+      · rename_i s1 hd
+        intro ms hm
+        rw [discs_cons] at hm
+        exact takeAux_discards_nothing fuel s1 ms (by simpa [discs] using hm)
+    · rename_i hf
+      split
+      · split
+        · intro ms hm
+          rw [discs_cons, noMsg_discs] at hm
+          simp [discs] at hm
+        · split
+          · rename_i q' m hdq
+            split
+            · intro ms hm; cases hm
+            · intro ms hm; cases hm
+            · rename_i s1 hd
+              intro ms hm
+              rw [discs_cons] at hm
+              exact takeAux_discards_nothing fuel s1 ms (by simpa [discs] using hm)
+          · intro ms hm
+            rw [discs_cons, noMsg_discs] at hm
+            simp [discs] at hm
+          · intro ms hm
+            rw [noMsg_discs] at hm; cases hm
+      · rename_i hq
+        simp only [Bool.not_eq_true, Bool.not_eq_false'] at hq
+        intro ms hm
+        dsimp only at hm
+        rw [discs_append, noMsg_discs, append_nil] at hm
+        exact pingBranch_discs s hf hq ms hm
+
 /-! ### whole histories -/
 
 def b2n (b : Bool) : Nat := if b then 1 else 0
